@@ -143,14 +143,15 @@ THStart ==
   /\ Line.ev = "HStart"
   /\ LET C == {Line.calls[i] : i \in 1..Len(Line.calls)} \cap HookIds IN
      /\ pendA' = pendA \cup C
-     \* (within one weight the calls are started first, then the hook tasks: "started together"; key = 2*weight + kind)
-     /\ lastw' = 2 * Line.w + (IF Line.kind = "tasks" THEN 1 ELSE 0)
+     \* (within one weight the calls are started first, then the calls due there are awaited, then the hook tasks run:
+     \*  key = 3*weight + 0 | 1 | 2)
+     /\ lastw' = 3 * Line.w + (IF Line.kind = "tasks" THEN 2 ELSE 0)
      /\ winStarted' = IF inWin THEN winStarted \cup C ELSE winStarted \ C
      /\ outStarted' = IF inWin THEN outStarted \ C ELSE outStarted \cup C
      /\ nviol' = nviol
           \* (TeardownEnvironment runs the leave_<state> hooks itself, outside of a transition step)
           + Soft("AtTrigger", (step.m = Line.m \/ tx = "DESTROY") /\ \A c \in C : HK(c).tm = Line.m /\ HK(c).tw = Line.w, <<Line.m, Line.w, C, step.m>>)
-          + Soft("Ordered", 2 * Line.w + (IF Line.kind = "tasks" THEN 1 ELSE 0) > lastw, <<Line.m, Line.w, Line.kind, lastw>>)
+          + Soft("Ordered", 3 * Line.w + (IF Line.kind = "tasks" THEN 2 ELSE 0) > lastw, <<Line.m, Line.w, Line.kind, lastw>>)
           \* C09: after a critical failure at before_/leave_ no later hook of that transition is started
           + Soft("CancelBefore", ~cancelled, <<Line.m, Line.w, C>>)
   /\ UNCHANGED <<scn, hooks, pred, reqi, tx, acq, step, failedH, open, cancelled, cmds, laterStart, lateErr, sawAfter, inWin, run, runView, seen, pg, ended, endS, endC>>
@@ -161,18 +162,21 @@ THAwaited ==
   /\ LET C == {Line.calls[i] : i \in 1..Len(Line.calls)} \cap HookIds IN
      /\ pendA' = pendA \ C
      /\ failedH' = failedH \ C
+     /\ lastw' = 3 * Line.w + (IF Line.kind = "tasks" THEN 2 ELSE 1)
      /\ cancelled' = (cancelled \/ (step.k \in {"before", "leave"} /\ \E c \in C : HK(c).crit /\ HK(c).fails))
      /\ step' = [step EXCEPT !.cf = @ \/ (step.m = Line.m /\ \E c \in C \cap failedH : HK(c).crit)]
      /\ nviol' = nviol
           \* collected at the declared await point, and only calls that were started and not collected before
           + Soft("Barrier", \A c \in C : HK(c).am = Line.m /\ HK(c).aw = Line.w, <<Line.m, Line.w, C>>)
+          \* C08: the await points of a moment are passed in weight order too: nothing of a later weight was started before
+          + Soft("Ordered", IF Line.kind = "tasks" THEN 3 * Line.w + 2 >= lastw ELSE 3 * Line.w + 1 > lastw, <<Line.m, Line.w, "await", lastw>>)
           + Soft("OnceOrCancelled", C \subseteq pendA, <<C, pendA>>)
           \* C08: collecting a call means taking its result: every awaited call that has failed counts as an error here
           + Soft("OnceOrCancelled", Line.errors >= Cardinality(C \cap failedH), <<"result dropped", C \cap failedH, Line.errors>>)
           \* C09 (and C08: the call's result is collected, not dropped): the failure of a critical call that was
           \* started and has failed is reported where the call is awaited
           + Soft("CriticalFailureReported", (\E c \in C \cap failedH : HK(c).crit) => Line.errors > 0, <<Line.m, C \cap failedH, Line.errors>>)
-  /\ UNCHANGED <<scn, hooks, pred, reqi, tx, acq, lastw, open, cmds, laterStart, lateErr, sawAfter, inWin, winStarted, outStarted, run, runView, seen, pg, ended, endS, endC>>
+  /\ UNCHANGED <<scn, hooks, pred, reqi, tx, acq, open, cmds, laterStart, lateErr, sawAfter, inWin, winStarted, outStarted, run, runView, seen, pg, ended, endS, endC>>
 
 THE ==
   /\ Line.ev = "HE"
